@@ -403,6 +403,11 @@ def notIdNext : List Char → Bool
   | [] => true
   | c :: _ => !isIdChar c
 
+/-- after `not` (fix 2ca6488): neither an identifier character nor `$`, so that `not$i` is a sorted constant -/
+def notWordNext : List Char → Bool
+  | [] => true
+  | c :: _ => !(isIdChar c || c == '$')
+
 /-- `variable+` after a quantifier -/
 def variablesL : Nat → List Char → List Var × List Char
   | 0, cs => ([], cs)
@@ -428,7 +433,7 @@ def prefixL (cs : List Char) : Option (FTok × List Char) :=
   | some x => some x
   | none =>
     match stripPrefix "not".toList cs with
-    | some r => if notIdNext r then some (.pneg, r) else none
+    | some r => if notWordNext r then some (.pneg, r) else none
     | none => none
 
 def prefixesL : Nat → Bool → List Char → List FTok × List Char
@@ -551,37 +556,45 @@ def lexDirection (cs : List Char) : Option (Direction × List Char) :=
       | some r => some (.backward, r)
       | none => none
 
+/-- `("(" ~ direction ~ ")")?` -/
+def dirOptL (r0 : List Char) : Direction × List Char :=
+  match skip r0 with
+  | '(' :: a =>
+    match lexDirection (skip a) with
+    | some (d, b) =>
+      match skip b with
+      | ')' :: c => (d, c)
+      | _ => (.universal, r0)
+    | none => (.universal, r0)
+  | _ => (.universal, r0)
+
+/-- `("[" ~ symbolic_constant ~ "]")?` -/
+def nameOptL (r1 : List Char) : String × List Char :=
+  match skip r1 with
+  | '[' :: a =>
+    match lexSymConst (skip a) with
+    | some (n, b) =>
+      match skip b with
+      | ']' :: c => (String.ofList n, c)
+      | _ => ("", r1)
+    | none => ("", r1)
+  | _ => ("", r1)
+
 /-- `annotated_formula = { role ~ ("(" ~ direction ~ ")")? ~ ("[" ~ symbolic_constant ~ "]")? ~ ":" ~ formula }` -/
 def annotatedL (cs : List Char) : Option (SAnn × List Char) :=
   match lexRole cs with
   | none => none
   | some (role, r0) =>
-    let (dir, r1) : Direction × List Char :=
-      match skip r0 with
-      | '(' :: a =>
-        match lexDirection (skip a) with
-        | some (d, b) =>
-          match skip b with
-          | ')' :: c => (d, c)
-          | _ => (.universal, r0)
-        | none => (.universal, r0)
-      | _ => (.universal, r0)
-    let (name, r2) : String × List Char :=
-      match skip r1 with
-      | '[' :: a =>
-        match lexSymConst (skip a) with
-        | some (n, b) =>
-          match skip b with
-          | ']' :: c => (String.ofList n, c)
-          | _ => ("", r1)
-        | none => ("", r1)
-      | _ => ("", r1)
-    match skip r2 with
-    | ':' :: r3 =>
-      match formulaTop (skip r3) with
-      | some (f, r4) => some (⟨role, dir, name, f⟩, r4)
-      | none => none
-    | _ => none
+    match dirOptL r0 with
+    | (dir, r1) =>
+      match nameOptL r1 with
+      | (name, r2) =>
+        match skip r2 with
+        | ':' :: r3 =>
+          match formulaTop (skip r3) with
+          | some (f, r4) => some (⟨role, dir, name, f⟩, r4)
+          | none => none
+        | _ => none
 
 def annotatedDot : Nat → List Char → List SAnn × List Char
   | 0, cs => ([], cs)
